@@ -195,13 +195,6 @@ def add_projections(draw, case):
         case["rhobeg"] = 0.1 * max(max(abs(v) for v in z), 1.0)
         case["rhoend"] = case["rhobeg"] * 1e-3
     case["maxfun"] = min(case["maxfun"] or 15, 15)
-    if case["fam"] == "script":      # known finding 'projections-flat': constant residuals + projections (pinned replay only)
-        m = len(case["script"][0])
-        case["fam"] = "lin"
-        case["m"] = m
-        case["A"] = [[1.0 if i == j % n else 0.25 for i in range(n)] for j in range(m)]
-        case["b"] = [0.5] * m
-        case.pop("script")
     for k in ("growing.ndirs_initial", "restarts.increase_npt", "restarts.max_npt", "restarts.increase_npt_amt",
               "init.random_initial_directions", "init.run_in_parallel", "init.random_directions_make_orthogonal"):
         case["up"].pop(k, None)
@@ -486,11 +479,6 @@ def known_projection_npt(case, clause, detail):
         (b.get("npt") != b["n"] + 1 or up.get("growing.ndirs_initial", b["n"]) < b["n"])
 
 
-def known_projection_flat(case, clause, detail):
-    b = case["base"]
-    return bool(b.get("proj")) and b.get("fam") == "script" and "array must not contain infs or NaNs" in detail
-
-
 def known_hard_npt_growth(case, clause, detail):
     b = case["base"]
     up = dict(b.get("up") or {})
@@ -502,5 +490,5 @@ def known_hard_npt_growth(case, clause, detail):
 
 
 PROFILES = {"args": Profile("args", cases, run, quick=4000, thorough=100000, timeout=120)}
-KNOWN = {"projections-npt": known_projection_npt, "projections-flat": known_projection_flat,
+KNOWN = {"projections-npt": known_projection_npt,
          "hard-restart-npt-growth": known_hard_npt_growth}
